@@ -254,7 +254,8 @@ def checkM (d : DSt) (n : Nat) (line op : String) (look : Bytes → Lookup) (lvl
   | .error .unsupported => return { d with unsupported := d.unsupported + 1 }
   | .error e =>
     d := noteNontrivial (countErr d e) line
-    if impl != .error (errName e) then d ← mismatch d n op "error" (toString (repr impl)) (errName e)
+    -- WHICH exception is thrown first (and its wording) is not part of the property: any failure matches any failure
+    if !(match impl with | .error _ => true | .ok _ => false) then d ← mismatch d n op "error" (toString (repr impl)) (errName e)
     return d
   | .ok (v, miss) =>
     if miss then d := { d with missing := d.missing + 1 }
@@ -290,7 +291,8 @@ def checkG (d : DSt) (n : Nat) (line op : String) (look : Bytes → Lookup) (cmd
   | .error .unsupported => return { d with unsupported := d.unsupported + 1 }
   | .error e =>
     d := noteNontrivial (countErr d e) line
-    if impl != .error (errName e) then d ← mismatch d n op "error" (toString (repr impl)) (errName e)
+    -- WHICH exception is thrown first (and its wording) is not part of the property: any failure matches any failure
+    if !(match impl with | .error _ => true | .ok _ => false) then d ← mismatch d n op "error" (toString (repr impl)) (errName e)
     return d
   | .ok co =>
     d := noteNontrivial d line
@@ -358,8 +360,8 @@ def handleH (d : DSt) (n : Nat) (line : String) (pre post : List String) : IO DS
       let m2r := resolveMacros (cacheLookup cache) lvl esc (.str s)
       let unsup := (match m1r with | .error .unsupported => true | _ => false) || (match m2r with | .error .unsupported => true | _ => false)
       if !same && !unsup then
-        let explains := (match m1r, r1 with | .ok (v, _), .ok (a, _) => showVal v == a | .error e, .error k => errName e == k | _, _ => false) &&
-                        (match m2r, r2 with | .ok (v, _), .ok (a, _) => showVal v == a | .error e, .error k => errName e == k | _, _ => false)
+        let explains := (match m1r, r1 with | .ok (v, _), .ok (a, _) => showVal v == a | .error _, .error _ => true | _, _ => false) &&
+                        (match m2r, r2 with | .ok (v, _), .ok (a, _) => showVal v == a | .error _, .error _ => true | _, _ => false)
         d := { d with cachedDiverged := d.cachedDiverged + 1 }
         d ← specfail d n .cachedEqualsDirect (divergenceClass look fuel cache explains)
       d ← checkM d n line "H" look lvl esc s r1
@@ -413,14 +415,15 @@ structure RunObs where
   out : Bytes
   perf : List Bytes
   gone : String
+  suffix : Bytes
 
 def parseRunObs (post : List String) : Option RunObs :=
   match post with
-  | [ran, argvh, rech, st, oex, oouth, perfh, gone] =>
-    match parseBool? ran, unhexList argvh, parseCmdOut rech, st.toNat?, oex.toInt?, unhex oouth, unhexList perfh with
-    | some ran, some argv, some recorded, some ostate, some oexit, some oout, some operf =>
-      some { ran := ran, argv := argv, recorded := recorded, state := ostate, exit := oexit, out := oout, perf := operf, gone := gone }
-    | _, _, _, _, _, _, _ => none
+  | [ran, argvh, rech, st, oex, oouth, perfh, gone, sfx] =>
+    match parseBool? ran, unhexList argvh, parseCmdOut rech, st.toNat?, oex.toInt?, unhex oouth, unhexList perfh, unhex sfx with
+    | some ran, some argv, some recorded, some ostate, some oexit, some oout, some operf, some sfx =>
+      some { ran := ran, argv := argv, recorded := recorded, state := ostate, exit := oexit, out := oout, perf := operf, gone := gone, suffix := sfx }
+    | _, _, _, _, _, _, _, _ => none
   | _ => none
 
 /-- One end-to-end run: specification clauses on the observations, then model against implementation. -/
@@ -436,12 +439,12 @@ def checkRun (d : DSt) (n : Nat) (op : String) (look : Bytes → Lookup) (cmd : 
   let mut fails : List Clause := []
   if timedOut then
     d := { d with timeouts := d.timeouts + 1 }
-    match specTimeout o.state o.out (o.gone == "1") with | some c => fails := fails ++ [c] | none => pure ()
+    match specTimeout o.state (o.gone == "1") with | some c => fails := fails ++ [c] | none => pure ()
   else if recorded.isNone then
     match specFailed ran o.state o.exit with | some c => fails := fails ++ [c] | none => pure ()
   else if ran then
     match specExit exit o.state o.exit with | some c => fails := fails ++ [c] | none => pure ()
-    match specOutput exit out o.out o.perf with | some c => fails := fails ++ [c] | none => pure ()
+    match specOutput o.suffix exit out o.out o.perf with | some c => fails := fails ++ [c] | none => pure ()
   match recorded with
   | some r =>
     if ran then
@@ -498,7 +501,7 @@ def checkRun (d : DSt) (n : Nat) (op : String) (look : Bytes → Lookup) (cmd : 
         | .ok ws => if !ran || argv ≠ ws then d ← mismatch d n op "sh-argv" s!"{ran},{hexList argv}" (hexList ws)
         | .error _ => d := { d with shOutside := d.shOutside + 1 }
       if ran && !timedOut then
-        let mo := processFinished exit out
+        let mo := processFinished o.suffix exit out
         if mo.state != o.state || mo.exit != o.exit || mo.output != o.out || mo.perfdata != o.perf then
           d ← mismatch d n op "result" s!"{o.state},{o.exit},{hexOf o.out},{hexList o.perf}"
                 s!"{mo.state},{mo.exit},{hexOf mo.output},{hexList mo.perfdata}"
@@ -520,7 +523,7 @@ def handleX (d : DSt) (n : Nat) (line : String) (pre post : List String) : IO DS
 def handleY (d : DSt) (n : Nat) (line : String) (pre post : List String) : IO DSt := do
   match pre, post with
   | svc :: rest, ch :: fillRan :: obs =>
-    match parseBool? svc, parseCmdArgs d.plugin rest, parseCache ch, parseBool? fillRan, parseRunObs (obs.take 8), parseRunObs (obs.drop 8) with
+    match parseBool? svc, parseCmdArgs d.plugin rest, parseCache ch, parseBool? fillRan, parseRunObs (obs.take 9), parseRunObs (obs.drop 9) with
     | some svc, some (cmd, args, [ex, outh]), some cache, some fillRan, some o1, some o2 =>
       match ex.toInt?, unhex outh with
       | some exit, some out =>
@@ -544,19 +547,19 @@ def handleY (d : DSt) (n : Nat) (line : String) (pre post : List String) : IO DS
 
 def handleP (d : DSt) (n : Nat) (line : String) (pre post : List String) : IO DSt := do
   match pre, post with
-  | [ex, outh], [st, oex, oouth, perfh] =>
-    match ex.toInt?, unhex outh, st.toNat?, oex.toInt?, unhex oouth, unhexList perfh with
-    | some exit, some out, some ostate, some oexit, some oout, some operf =>
+  | [ex, outh], [sfxh, st, oex, oouth, perfh] =>
+    match ex.toInt?, unhex outh, st.toNat?, oex.toInt?, unhex oouth, unhexList perfh, unhex sfxh with
+    | some exit, some out, some ostate, some oexit, some oout, some operf, some sfx =>
       let mut d := { d with steps := d.steps + 1, nP := d.nP + 1 }
       if out.contains BAR then d := noteNontrivial d line
       match specExit exit ostate oexit with | some c => d ← specfail d n c | none => pure ()
-      match specOutput exit out oout operf with | some c => d ← specfail d n c | none => pure ()
-      let mo := processFinished exit out
+      match specOutput sfx exit out oout operf with | some c => d ← specfail d n c | none => pure ()
+      let mo := processFinished sfx exit out
       if mo.state != ostate || mo.exit != oexit || mo.output != oout || mo.perfdata != operf then
         d ← mismatch d n "P" "result" s!"{ostate},{oexit},{hexOf oout},{hexList operf}"
               s!"{mo.state},{mo.exit},{hexOf mo.output},{hexList mo.perfdata}"
       return d
-    | _, _, _, _, _, _ => IO.println s!"BADLINE line={n}"; return d
+    | _, _, _, _, _, _, _ => IO.println s!"BADLINE line={n}"; return d
   | _, _ => IO.println s!"BADLINE line={n}"; return d
 
 def handle (d : DSt) (n : Nat) (line : String) : IO DSt := do
